@@ -25,6 +25,9 @@ pub struct Case {
     pub hist: Vec<ROp>,
     /// transient device faults: (index of the history op, offset of the device op inside it, kind)
     pub faults: Vec<(usize, u64, FaultKind)>,
+    /// failing sinks: (index of the history op, n-th write to the sink inside it) reports an error
+    #[serde(default)]
+    pub sink_faults: Vec<(usize, u64)>,
     pub rchunk: Chunk,
 }
 
@@ -95,6 +98,7 @@ fn fresh_result(image: &[u8], standalone: &[(u64, u64)], op: &ROp) -> Option<OpR
 }
 
 fn run_case(case: &Case, st: &mut RunStats) -> Outcome<Case> {
+    set_poll_after_error(true);
     st.evaluations = 1;
     let (mut image, standalone) = match make_source(&case.prog) {
         Ok(x) => x,
@@ -108,6 +112,7 @@ fn run_case(case: &Case, st: &mut RunStats) -> Outcome<Case> {
     }
     // fault-free pass to learn the device-operation range of every history op
     let ctx0 = new_ctx(vec![]);
+    ctx0.borrow_mut().record_ops = !case.sink_faults.is_empty();
     let run0 = reader_run(&image, &ctx0, &case.rchunk, &standalone, &case.hist, false);
     if run0.open.is_err() {
         // damage hit the header or XML: nothing to compare (trivial run)
@@ -123,6 +128,15 @@ fn run_case(case: &Case, st: &mut RunStats) -> Outcome<Case> {
             }
         }
     }
+    for (i, n) in &case.sink_faults {
+        if let Some(rec) = run0.recs.get(*i) {
+            let writes: Vec<u64> = ctx0.borrow().log.iter().filter(|o| o.no >= rec.op_from && o.no < rec.op_to && o.dev >= DEV_PIPE && o.kind == OpKind::Write).map(|o| o.no).collect();
+            if !writes.is_empty() {
+                faults.push(Fault { at: writes[(*n as usize) % writes.len()], kind: FaultKind::Error });
+            }
+        }
+    }
+    st.probe("sink_error_inside_blob_extraction", !case.sink_faults.is_empty() && faults.iter().any(|f| ctx0.borrow().log.iter().any(|o| o.no == f.at && o.dev >= DEV_PIPE)));
     let ctx = new_ctx(faults.clone());
     ctx.borrow_mut().record_ops = !faults.is_empty();
     let mut same_fault_compared = 0u64;
@@ -156,10 +170,11 @@ fn run_case(case: &Case, st: &mut RunStats) -> Outcome<Case> {
             return Outcome::fail(
                 class,
                 format!(
-                    "history op #{i} {:?}: on the used reader {}, on a fresh reader {} (ops before: {})",
+                    "history op #{i} {:?}: on the used reader {}, on a fresh reader {}{} (ops before: {})",
                     case.hist[i],
                     rec.result.brief(),
                     fresh.brief(),
+                    rec.result.first_point_difference(&fresh).map(|d| format!("; {d}")).unwrap_or_default(),
                     run.recs[..i].iter().map(|r| r.result.brief()).collect::<Vec<_>>().join("; ")
                 ),
             );
@@ -324,7 +339,9 @@ fn long_scan_case(rc: &RunCtx) -> Case {
     let behind = n_blobs;
     let n = 17 * 1020 + r.usize_below(3000);
     calls.push(Call::Blob { data: Bytes::draw(&mut r, n), pipe: Chunk::Full, fail_after: None });
-    let prog = Program { guid: gen_guid(&mut r), calls, end: End::Finalize, knob: Some(*r.pick(&KNOBS)), on_error: OnError::Stop };
+    // the library's own packet capacity half of the time: byte streams of ~20 KiB per packet
+    let knob = if r.chance(1, 2) { None } else { Some(*r.pick(&KNOBS)) };
+    let prog = Program { guid: gen_guid(&mut r), calls, end: End::Finalize, knob, on_error: OnError::Stop };
     let extra = r.usize_below(3);
     hist.extend(gen_history(&mut r, extra));
     if r.chance(1, 3) {
@@ -339,8 +356,23 @@ fn long_scan_case(rc: &RunCtx) -> Case {
             damage.push(Patch::Xor { offset: off + 40 + r.below(15 * 1024), mask: 1 << r.below(8) });
         }
     }
+    let mut faults = Vec::new();
+    if r.chance(1, 3) {
+        // one or two device faults somewhere inside the long scan (or the operations after it)
+        let n = 1 + r.usize_below(2);
+        for _ in 0..n {
+            let kind = match r.below(4) {
+                0 => FaultKind::Error,
+                1 => FaultKind::ShortThenError { bytes: 1 + r.below(1023) as u32 },
+                2 => FaultKind::Transient { kind: r.below(6) as u8 },
+                _ => FaultKind::Error,
+            };
+            let at_op = if r.chance(2, 3) { 0 } else { r.usize_below(hist.len()) };
+            faults.push((at_op, r.below(400), kind));
+        }
+    }
     let mut c = Rng::stream(rc.run_seed, "chunk-dev");
-    Case { prog, damage, sealed: false, hist, faults: vec![], rchunk: Chunk::draw(&mut c) }
+    Case { prog, damage, sealed: false, hist, faults, sink_faults: vec![], rchunk: Chunk::draw(&mut c) }
 }
 
 impl Prop for C17 {
@@ -351,7 +383,7 @@ impl Prop for C17 {
     fn meta(&self) -> Meta {
         Meta {
             level: "exploration",
-            rule: "source file = seeded writer program (0-5 items, knob on) written fault-free; optionally static damage located with the crate's own descriptors: 1-2 bit flips in section pages, unsealed (damaged pages) or resealed (damaged section / packet headers); history of 2-12 seeded read operations on ONE open E57Reader<SimDisk> (xml, listings, raw / simple iteration with early termination after 0..40 points and drawn option bits, blob extraction into chunked sinks) under a seeded short-read schedule; in every second run up to three transient device faults (hard error; short transfer then error; TimedOut / WouldBlock / Interrupted) at drawn device operations INSIDE drawn history operations, or one transient condition in EVERY operation of the history; everything else fault-free. Every sixteenth run is a long-scan case: an item of 64..130 pages (blob or point cloud, page count over every residue modulo 16) is read to its end, then its short neighbour, while a page of the item behind the neighbour is damaged. Oracle: each operation without an injected fault equals the result of the same operation on a freshly opened reader over the same stored bytes; an operation with an injected fault is Err (what it yielded before is a prefix of the fresh result) or equals the fresh result; where exactly one fault hit the first read of a page inside an operation, the operation must in addition fail or succeed exactly as on a fresh reader whose device injects the same fault at its first read of that page (whether a fault surfaces or is absorbed must not depend on the history). Distinct = hash(history op kinds/targets/early-termination class, Ok/Err pattern, fault kinds, damage mode); non-trivial = at least two operations touched the device".into(),
+            rule: "source file = seeded writer program (0-5 items, knob on) written fault-free; optionally static damage located with the crate's own descriptors: 1-2 bit flips in section pages, unsealed (damaged pages) or resealed (damaged section / packet headers); history of 2-12 seeded read operations on ONE open E57Reader<SimDisk> (xml, listings, raw / simple iteration with early termination after 0..40 points and drawn option bits, blob extraction into chunked sinks) under a seeded short-read schedule; in every second run up to three transient device faults (hard error; short transfer then error; TimedOut / WouldBlock / Interrupted) at drawn device operations INSIDE drawn history operations, or one transient condition in EVERY operation of the history; everything else fault-free. Every sixteenth run is a long-scan case: an item of 64..130 pages (blob or point cloud, page count over every residue modulo 16, half of the time written with the library's own packet capacity so that byte streams of ~20 KiB per packet are read) is read to its end, then its short neighbour, while a page of the item behind the neighbour is damaged; a third of these cases carry device faults inside the scan. A quarter of the blob extractions have a sink that reports an error at one of its first writes. Iterators are polled three more times after their first error: what they hand out then belongs to the operation's result. Oracle: each operation without an injected fault equals the result of the same operation on a freshly opened reader over the same stored bytes; an operation with an injected fault is Err (what it yielded before is a prefix of the fresh result) or equals the fresh result; where exactly one fault hit the first read of a page inside an operation, the operation must in addition fail or succeed exactly as on a fresh reader whose device injects the same fault at its first read of that page (whether a fault surfaces or is absorbed must not depend on the history). Distinct = hash(history op kinds/targets/early-termination class, Ok/Err pattern, fault kinds, damage mode); non-trivial = at least two operations touched the device".into(),
             assumptions: vec![
                 "errors are compared as 'is Err' only".into(),
                 "iterators are driven to the first Err or None".into(),
@@ -417,8 +449,16 @@ impl Prop for C17 {
                 }
             }
         }
+        // the sink of a blob extraction fails at one of its first writes (with damaged pages in
+        // the blob: while the page layer has delivered part of a chunk)
+        let mut sink_faults = Vec::new();
+        for (i, op) in hist.iter().enumerate() {
+            if matches!(op, ROp::Blob { .. }) && f.chance(1, 4) {
+                sink_faults.push((i, f.below(3)));
+            }
+        }
         let mut c = Rng::stream(rc.run_seed, "chunk-dev");
-        Case { prog, damage, sealed, hist, faults, rchunk: Chunk::draw(&mut c) }
+        Case { prog, damage, sealed, hist, faults, sink_faults, rchunk: Chunk::draw(&mut c) }
     }
     fn execute(&self, case: &Case, st: &mut RunStats) -> Outcome<Case> {
         run_case(case, st)
@@ -434,11 +474,22 @@ impl Prop for C17 {
                     f.0 -= 1;
                 }
             }
+            c.sink_faults.retain(|f| f.0 != i);
+            for f in c.sink_faults.iter_mut() {
+                if f.0 > i {
+                    f.0 -= 1;
+                }
+            }
             out.push(c);
         }
         for i in 0..case.faults.len() {
             let mut c = case.clone();
             c.faults.remove(i);
+            out.push(c);
+        }
+        for i in 0..case.sink_faults.len() {
+            let mut c = case.clone();
+            c.sink_faults.remove(i);
             out.push(c);
         }
         for i in 0..case.damage.len() {
